@@ -47,7 +47,8 @@ func errLitExcludesOther(l eng.PathLit, errVal ssa.Value, isClassifier func(*ssa
 			return (x.Op == token.NEQ && !l.Truth) || (x.Op == token.EQL && l.Truth)
 		}
 		if isEOFSentinel(other) {
-			return x.Op == token.EQL && l.Truth
+			// err == io.EOF true / err != io.EOF false => EOF class
+			return (x.Op == token.EQL && l.Truth) || (x.Op == token.NEQ && !l.Truth)
 		}
 	}
 	return false
